@@ -60,6 +60,17 @@ static void ivalues(uint64_t len, std::vector<IT>& out)
         s.insert(((i128)1 << k) + i);
         s.insert(-((i128)1 << k) + i);
       }
+    if (g_thorough) {
+      // every index up to 8x the length (a bound computed from a wrong element size is off by a factor <= 8), a wide band around 0,
+      // and aliasing values for every power of two
+      for (i128 v = -300; v <= (i128)len * 8 + 300; v++) s.insert(v);
+      for (uint64_t i = 0; i < len; i++)
+        for (int k = 3; k <= 64; k++) {
+          s.insert(((i128)1 << k) + i);
+          s.insert(-((i128)1 << k) + i);
+          s.insert(((i128)1 << k) - 1 - i);
+        }
+    }
     for (i128 v : s)
       if (representable<IT>(v)) out.push_back((IT)v);
   }
